@@ -29,6 +29,14 @@ structure Frame where
   ns : Option Str
   deriving DecidableEq, Repr
 
+/-- `if var.wrapper_qname: yield START, var.wrapper_qname` (`next_value` yields the
+element, wildcard and text vars; attributes are written elsewhere) -/
+def wrapperStart (v : Var) : List Str :=
+  if v.kind == .attribute then [] else
+  match v.wrapperQName with
+  | some q => [q]
+  | none => []
+
 /-- the serializer's walk, parametrised by how `build` is answered
 (`bld s c pns` = new state and result) so that the same code runs against the
 shared cache and against the cache-free specification -/
@@ -48,13 +56,15 @@ def serWalk {σ} (bld : σ → ClassId → Option Str → σ × Except Err Meta)
       -- convert_dataclass(value, namespace, var.qname)
       match bld s c f.ns with
       | (s', .error e) => (s', .error e)
-      | (s', .ok m) => serWalk bld rest s' (⟨m.vars, targetUri v.qname⟩ :: f :: fs) (out ++ [v.qname])
+      | (s', .ok m) =>
+        serWalk bld rest s' (⟨m.vars, targetUri v.qname⟩ :: f :: fs) (out ++ wrapperStart v ++ [v.qname])
   | .leaf _ :: rest, s, [], out => serWalk bld rest s [] out
   | .leaf i :: rest, s, f :: fs, out =>
     match f.vars[i]? with
     | none => (s, .error .index)
     | some v =>
-      serWalk bld rest s (f :: fs) (if v.kind == .element then out ++ [v.qname] else out)
+      serWalk bld rest s (f :: fs)
+        (if v.kind == .element then out ++ wrapperStart v ++ [v.qname] else out ++ wrapperStart v)
   | .leave :: rest, s, fs, out => serWalk bld rest s fs.tail out
 
 end Xs.Ctx
